@@ -481,7 +481,7 @@ class TimerRecorder:
             setattr(klass, name, f)
 
 
-def run_establishment(local: int, peer: int, arrivals_ms: list[int], arrival_kind: str = 'keepalive', routes: int = 0, until_ms: int | None = None, stage: str = 'established') -> dict:
+def run_establishment(local: int, peer: int, arrivals_ms: list[int], arrival_kind: str = 'keepalive', routes: int = 0, until_ms: int | None = None, stage: str = 'established', api_events: list | None = None, cfg_extra: dict | None = None) -> dict:
     """Real OPEN exchange (our hold time `local`, the peer's `peer`), real `_establish` and `_main` of a
     real Peer over a socketpair under virtual time (harness/sessionrig.run_hold_scenario); the remote
     writes `arrival_kind` at `arrivals_ms` after ESTABLISHED and is silent otherwise.  With
@@ -498,7 +498,7 @@ def run_establishment(local: int, peer: int, arrivals_ms: list[int], arrival_kin
         last = max(arrivals_ms) if arrivals_ms else 0
         until_ms = last + ((h + 5) * 1000 if h else (max(local, peer) + 8) * 1000)
     with TimerRecorder() as rec:
-        res = sessionrig.run_hold_scenario(local, list(arrivals_ms), until_ms=until_ms, stage=stage, peer_hold=peer, routes=routes, arrival_kind=arrival_kind)
+        res = sessionrig.run_hold_scenario(local, list(arrivals_ms), until_ms=until_ms, stage=stage, peer_hold=peer, routes=routes, arrival_kind=arrival_kind, api_events=api_events, cfg_extra=cfg_extra)
     res['records'] = rec.records
     res['oc'] = rec.oc
     res['until_ms'] = until_ms
